@@ -142,36 +142,54 @@ def check(repo: Repo, run: Run) -> None:
     routines.append(("pykdebugparser.trace_handlers.trace", "handle_trace_string_global", gf.get("vstr"),
                      [gf.get("debugid"), gf.get("str_id")], {"debug id": (gf.get("debugid"), 0), "string id": (gf.get("str_id"), 1)},
                      None))
+    gated = set()
     for module, scope, text, hdr_terms, ids, y in routines:
         if text is None:
             raise AnalysisError(f"{scope}: reassembled text not found")
-        acc = find_accumulation(text)
-        run.ob("R1", module, scope, "text = acc + (data[K:] on the START record, whole data otherwise)", acc is not None,
-               "the reassembled text is not built as `acc + record.data[K:]` on the START record and `acc + record.data` on "
-               "continuation records", facts={"text": sym.pretty(text)[:300]})
-        if acc is None:
+        in_object = [x for t_ in [text] + [h for h in hdr_terms if h is not None] for x in sym.walk(t_)
+                     if x.op == "widen" and "." in str(x.a[0])]
+        pending = []
+
+        def judge(ob):
+            # obligations of this routine are collected first: when the state lives in a helper object and one of them would
+            # fail, the failure says that the accumulation form was not read off the object's fields - undecided
+            acc = find_accumulation(text)
+            ob("R1", module, scope, "text = acc + (data[K:] on the START record, whole data otherwise)", acc is not None,
+                   "the reassembled text is not built as `acc + record.data[K:]` on the START record and `acc + record.data` on "
+                   "continuation records", facts={"text": sym.pretty(text)[:300]})
+            if acc is None:
+                return False
+            ev, K, order_ok, nul, dec = acc
+            words = header_words([h for h in hdr_terms if h is not None], ev)
+            want = 8 * len(words)
+            ok = K == want and words == list(range(len(words))) and len(words) >= 1
+            ob("R1", module, scope, f"text starts after the {len(words)} header word(s): data[{want}:]", ok,
+                   "" if ok else f"the START record contributes data[{K}:] but its branch consumes header word(s) {words} "
+                                 f"({want} bytes): " + ("header bytes are taken for text" if (K or 0) < want else "text bytes are lost"),
+                   facts={"K": K, "header_words": words},
+                   witness="a path/string whose first chunk is full (24 / 16 text bytes): compare the first characters")
+            ob("R1", module, scope, "chunks concatenated in record order", order_ok,
+                   "chunks are not appended to the right of the accumulated text (order reversed or slice bounded)", nontrivial=False)
+            ob("R1", module, scope, "every NUL removed before decoding", nul is True and dec,
+                   "the text is not `.replace(b'\\x00', b'')` (all NULs, also between chunks) followed by decode"
+                   if nul is not True else "the text is not decoded", nontrivial=False)
+            for label, (t, idx) in ids.items():
+                okid = t is not None and any(
+                    x.op == "ite" and _bit_test(x.a[0], ev, START_BIT) and
+                    x.a[1] == T("sub", (T("attr", (ev, "values")), const(idx))) for x in sym.walk(t))
+                ob("R1", module, scope, f"{label} is the START record's word {idx}", okid,
+                       f"the {label} is not taken from values[{idx}] of the record that carries the START bit",
+                       facts={"term": sym.pretty(t)[:160] if t is not None else None})
+            # (recognised: the accumulation was found, its offset is a number and the header words were located)
+            return isinstance(K, int) and len(words) >= 1
+        recognised = judge(lambda *a_, **k_: pending.append((a_, k_)))
+        if in_object and not recognised and any(not a_[4] for a_, _ in pending):
+            run.floor_failures.append(f"C08/R1: {scope} keeps the reassembly state in a helper object "
+                                      f"({str(in_object[0].a[0])}): the header/offset agreement is not decided")
+            gated.add(scope)
             continue
-        ev, K, order_ok, nul, dec = acc
-        words = header_words([h for h in hdr_terms if h is not None], ev)
-        want = 8 * len(words)
-        ok = K == want and words == list(range(len(words))) and len(words) >= 1
-        run.ob("R1", module, scope, f"text starts after the {len(words)} header word(s): data[{want}:]", ok,
-               "" if ok else f"the START record contributes data[{K}:] but its branch consumes header word(s) {words} "
-                             f"({want} bytes): " + ("header bytes are taken for text" if (K or 0) < want else "text bytes are lost"),
-               facts={"K": K, "header_words": words},
-               witness="a path/string whose first chunk is full (24 / 16 text bytes): compare the first characters")
-        run.ob("R1", module, scope, "chunks concatenated in record order", order_ok,
-               "chunks are not appended to the right of the accumulated text (order reversed or slice bounded)", nontrivial=False)
-        run.ob("R1", module, scope, "every NUL removed before decoding", nul is True and dec,
-               "the text is not `.replace(b'\\x00', b'')` (all NULs, also between chunks) followed by decode"
-               if nul is not True else "the text is not decoded", nontrivial=False)
-        for label, (t, idx) in ids.items():
-            okid = t is not None and any(
-                x.op == "ite" and _bit_test(x.a[0], ev, START_BIT) and
-                x.a[1] == T("sub", (T("attr", (ev, "values")), const(idx))) for x in sym.walk(t))
-            run.ob("R1", module, scope, f"{label} is the START record's word {idx}", okid,
-                   f"the {label} is not taken from values[{idx}] of the record that carries the START bit",
-                   facts={"term": sym.pretty(t)[:160] if t is not None else None})
+        for a_, k_ in pending:
+            run.ob(*a_, **k_)
     # vnode_generator emits on the END bit and resets
     y = ys[0]
     inner = []
@@ -185,17 +203,31 @@ def check(repo: Repo, run: Run) -> None:
         if lr.kind == "for":
             ev_t = lr.target
     ok_end = ev_t is not None and any(_bit_test(c, ev_t, END_BIT) for c in inner) and len(y.pc) == 1
-    run.ob("R1", "pykdebugparser.traces_parser", "TracesParser.vnode_generator", "one lookup emitted per END-bit record", ok_end,
-           "a lookup is not emitted exactly when a record carries the END bit", nontrivial=False)
+    if "TracesParser.vnode_generator" not in gated:
+        run.ob("R1", "pykdebugparser.traces_parser", "TracesParser.vnode_generator", "one lookup emitted per END-bit record", ok_end,
+               "a lookup is not emitted exactly when a record carries the END bit", nontrivial=False)
     # parse_vnodes selects lookup records by name from the supplied table
     pv = repo.method("traces_parser", "TracesParser", "parse_vnodes")
     prec = interp.run(tp.module, pv, self_cls=tp)
-    comp = [x for x in sym.walk(normal.accum_to_comp(prec, prec.return_term())) if x.op == "comp"]
+    pv_term = normal.accum_to_comp(prec, prec.return_term())
+    comp = [x for x in sym.walk(pv_term) if x.op == "comp"]
     okf = False
+    selections = []
     for x in comp:
         elemvar, it, conds = x.a[2][0]
         if it == param(pv.args.args[1].arg) and x.a[1] == elemvar and len(conds) == 1:
-            c = conds[0]
+            selections.append((elemvar, conds[0]))
+    from .. import pipeline
+    for x in sym.walk(pv_term):
+        # filter(self.is_lookup, events) / filter(lambda e: ..., events): the same selection as a filter stage
+        if x.op == "call" and x.a[0] == pipeline.FILTER and len(x.a[1]) == 2 and x.a[1][1] == param(pv.args.args[1].arg):
+            body_ = pipeline.resolve_predicate(repo, interp, tp, x.a[1][0])
+            if body_ is not None:
+                bv_ = {y for y in sym.walk(body_) if y.op in ("bound", "elem")}
+                if len(bv_) == 1:
+                    selections.append((bv_.pop(), body_))
+    for elemvar, c in selections:
+        if True:
             tc = T("attr", (param("self"), "trace_codes"))
             eid = T("attr", (elemvar, "eventid"))
             names = [T("call", (T("attr", (tc, "get")), (eid,), ())), T("call", (T("attr", (tc, "get")), (eid, const("")), ())),
